@@ -249,7 +249,7 @@ class PipelineMonitor:
             ctx.nontrivial(str(engine), tuple(tuple(rows_of(v)) for v in st["inputs"]))
 
 
-def set_inputs(engine, block, in_place=False):
+def set_inputs(engine, block, in_place=False, form=0):
     """block: list of rows; one row -> plain floats, several rows -> arrays (in_place: refill the arrays the variables
     already hold instead of assigning new ones - the same objects with new contents)"""
     if in_place and len(block) > 1 and all(isinstance(v.value, np.ndarray) and np.shape(v.value) == (len(block),) and not v.lock_range and v.value.flags.writeable for v in engine.input_variables):
@@ -259,11 +259,26 @@ def set_inputs(engine, block, in_place=False):
         return True
     if len(block) == 1:
         for v, x in zip(engine.input_variables, block[0]):
-            v.value = x
+            v.value = FORMS1[form % len(FORMS1)](x)
+    elif form % 5 == 4 and len(engine.input_variables) > 0:
+        engine.input_values = np.array(block, dtype=float)  # the engine-level matrix
     else:
         arr = np.array(block, dtype=float)
         for k, v in enumerate(engine.input_variables):
-            v.value = arr[:, k]
+            col = arr[:, k]
+            if form % 5 == 1:
+                wide = np.empty(2 * len(col))
+                wide[::2] = col
+                col = wide[::2]  # a non-contiguous view
+            elif form % 5 == 2:
+                col = col.copy()
+                col.flags.writeable = False  # a read-only array
+            elif form % 5 == 3:
+                col = np.asfortranarray(col.reshape(-1, 1))[:, 0]  # a column of a Fortran-ordered matrix
+            v.value = col
+
+
+FORMS1 = [float, float, np.float64, lambda x: np.array(x), lambda x: np.array([x]), lambda x: int(x) if (x == x and abs(x) < 1e9 and float(x).is_integer()) else float(x)]
 
 
 def run(ctx):
@@ -288,7 +303,7 @@ def run(ctx):
         mon.install(probe)
         for i, rnd in ctx.cases("engines", nengines):
             general = i % 3 != 2
-            spec = E.gen_engine(rnd, activations=("General",) if general else tuple(c08.METHODS), d=rnd.choice([1, 3, 3]), allow_output_antecedent=general, free_weights=True, share_defuzzifier=True)
+            spec = E.gen_engine(rnd, activations=("General",) if general else tuple(c08.METHODS), d=rnd.choice([1, 3, 3]), allow_output_antecedent=general, free_weights=True, share_defuzzifier=True, routes=True)
             try:
                 engine = E.build(fl, spec)
             except Exception as ex:
@@ -302,7 +317,9 @@ def run(ctx):
                 last_size = size
                 block = rows[k : k + size]
                 k += size
-                if set_inputs(engine, block, in_place=rnd.random() < 0.5):
+                form = rnd.randrange(30)
+                ctx.hit(f"input_form:{'single' if len(block) == 1 else 'batch'}:{form % (len(FORMS1) if len(block) == 1 else 5)}")
+                if set_inputs(engine, block, in_place=rnd.random() < 0.3, form=form):
                     ctx.hit("event:input arrays refilled in place")
                 try:
                     engine.process()
